@@ -18,16 +18,18 @@ mod c03pk {
     /// composite key  be16(len) ++ bytes ++ 0x00  per component in PARTITION-KEY order.
     fn check_layout<const NPK: usize>() {
         // bound values
-        let mut vals: [[u8; MAXLEN]; MARKERS] = kani::any();
+        let vals: [[u8; MAXLEN]; MARKERS] = kani::any();
         let mut lens = [0usize; MARKERS];
         let mut sv = SerializedValues::new();
-        let typ = ColumnType::Native(NativeType::Blob);
+        // (values containing ColumnType are never dropped: its recursive drop glue is what CBMC spends its time on)
+        let typ = std::mem::ManuallyDrop::new(ColumnType::Native(NativeType::Blob));
+        let typ: &ColumnType = &typ;
         let mut m = 0;
         while m < MARKERS {
             let l: usize = kani::any();
             kani::assume(l <= MAXLEN);
             lens[m] = l;
-            sv.add_value(&&vals[m][..l], &typ).unwrap();
+            assert!(std::mem::ManuallyDrop::new(sv.add_value(&&vals[m][..l], typ)).is_ok());
             m += 1;
         }
         // partition key columns: marker index of key component with sequence s
@@ -67,11 +69,14 @@ mod c03pk {
             ColumnSpec::borrowed("c0", typ.clone(), ts.clone()), ColumnSpec::borrowed("c1", typ.clone(), ts.clone()),
             ColumnSpec::borrowed("c2", typ.clone(), ts.clone()), ColumnSpec::borrowed("c3", typ.clone(), ts.clone()),
         ];
-        let meta = PreparedMetadata { flags: 0, col_count: MARKERS, pk_indexes, col_specs };
+        let meta = std::mem::ManuallyDrop::new(PreparedMetadata { flags: 0, col_count: MARKERS, pk_indexes, col_specs });
+        let meta: &PreparedMetadata = &meta;
 
-        let pk = PartitionKey::new(&meta, &sv).unwrap();
+        let pk = std::mem::ManuallyDrop::new(PartitionKey::new(meta, &sv));
+        let pk = match &*pk { Ok(p) => p, Err(_) => { assert!(false, "key extraction succeeds"); return; } };
         let mut stream: Vec<u8> = Vec::new();
-        pk.write_encoded_partition_key(&mut |chunk: &[u8]| stream.extend_from_slice(chunk)).unwrap();
+        let w = std::mem::ManuallyDrop::new(pk.write_encoded_partition_key(&mut |chunk: &[u8]| stream.extend_from_slice(chunk)));
+        assert!(w.is_ok());
 
         // spec
         let mut expect: Vec<u8> = Vec::new();
